@@ -812,8 +812,27 @@ class Interp:
         res = []
         wf = sir.write_fmt_call(e)
         if wf is not None:
-            text = "".join(p[1] if p[0] == "lit" else "{}" for p in wf[1])
+            text = ""
+            for p in wf[1]:
+                if p[0] == "lit":
+                    text += p[1]
+                    continue
+                spec = p[2] or ""
+                vals = [o.value for o in self.ev(p[1], st) if o.kind == "val"] if p[1] is not None else []
+                v = vals[0] if len(vals) == 1 else UNK
+                if isinstance(v, str) and not spec:
+                    text += v
+                elif isinstance(v, str) and len(v) == 1 and spec and spec[-1] in "xX":
+                    text += format(ord(v), spec)       # `c as u32` keeps the character as its abstract value
+                elif isinstance(v, int) and not isinstance(v, bool):
+                    text += format(v, spec) if spec else str(v)
+                else:
+                    text += "{%s}" % ((":" + spec) if spec else "")
             return [Out("val", ("Ok", UNIT), st.event(("write", text)))]
+        if m in ("push", "write_char") and len(e["args"]) == 1:
+            vals = [o.value for o in self.ev(e["args"][0], st) if o.kind == "val"]
+            if len(vals) == 1 and isinstance(vals[0], str) and len(vals[0]) == 1:
+                return [Out("val", UNIT if m == "push" else ("Ok", UNIT), st.event(("write", vals[0])))]
         for o in self.ev(e["recv"], st):
             if o.kind != "val":
                 res.append(o)
